@@ -546,7 +546,7 @@ func main() {
 	}
 	start := time.Now()
 	nE2E := f.N(60, 1200)
-	budget := 40 * time.Second // quick tier: stay within ~60 s whatever the machine load
+	budget := 25 * time.Second // quick tier: stay within ~60 s whatever the machine load
 	if f.Tier == "thorough" {
 		budget = 10 * time.Minute
 	}
